@@ -3,6 +3,9 @@
 
    Case: (serial (seed S) (g G) (n N) (k K) (init v ...) (writes W ...) (reads R ...) (final v ...))
      W, in the order of local.oplog:  (inc I D OLD INV RET) | (xfer I J A VI VJ INV RET)
+                                      | (claim T I OLD INV RET): a sorted find-one-and-update
+                                        {_id < K/2, v < T} sort {_id: 1}, {$inc: {v: 1}} that returned
+                                        counter I with value OLD
      R:                               (read INV RET v ...)
    INV / RET are global ticks taken at invocation and at return.
 
@@ -22,16 +25,24 @@ Definition zs_of_sexps (l : list sexp) : option (list Z) := opt_mapM z_of_sexp l
 
 Inductive swrite :=
 | WInc (i : nat) (d old inv ret : Z)
-| WXfer (i j : nat) (a vi vj inv ret : Z).
+| WXfer (i j : nat) (a vi vj inv ret : Z)
+| WClaim (t : Z) (i : nat) (old inv ret : Z).
 
-Definition w_inv (w : swrite) : Z := match w with WInc _ _ _ inv _ => inv | WXfer _ _ _ _ _ inv _ => inv end.
-Definition w_ret (w : swrite) : Z := match w with WInc _ _ _ _ ret => ret | WXfer _ _ _ _ _ _ ret => ret end.
+Definition w_inv (w : swrite) : Z :=
+  match w with WInc _ _ _ inv _ => inv | WXfer _ _ _ _ _ inv _ => inv | WClaim _ _ _ inv _ => inv end.
+Definition w_ret (w : swrite) : Z :=
+  match w with WInc _ _ _ _ ret => ret | WXfer _ _ _ _ _ _ ret => ret | WClaim _ _ _ _ ret => ret end.
 
 Definition write_of_sexp (x : sexp) : option swrite :=
   match x with
   | SList (SAtom "inc" :: args) =>
       match zs_of_sexps args with
       | Some [i; d; old; inv; ret] => Some (WInc (Z.to_nat i) d old inv ret)
+      | _ => None
+      end
+  | SList (SAtom "claim" :: args) =>
+      match zs_of_sexps args with
+      | Some [t; i; old; inv; ret] => Some (WClaim t (Z.to_nat i) old inv ret)
       | _ => None
       end
   | SList (SAtom "xfer" :: args) =>
@@ -58,9 +69,23 @@ Fixpoint zlist_eqb (a b : list Z) : bool :=
   | _, _ => false
   end.
 
+(* the first of the counters p, p+1, ... below `half` whose value is below t *)
+Fixpoint first_below (st : list Z) (p half : nat) (t : Z) : option nat :=
+  match st with
+  | [] => None
+  | v :: r => if Nat.ltb p half then (if (v <? t)%Z then Some p else first_below r (S p) half t) else None
+  end.
+
 (* apply one write; None = it returned a value that is not the one in the state *)
-Definition apply_write (st : list Z) (w : swrite) : option (list Z) :=
+Definition apply_write (half : nat) (st : list Z) (w : swrite) : option (list Z) :=
   match w with
+  | WClaim t i old _ _ =>
+      (* the sorted find-one-and-update takes the FIRST counter whose value is below t
+         in the state it is applied to, and returns that value *)
+      match first_below st 0 half t with
+      | Some j => if Nat.eqb j i && Z.eqb (znth st i) old then Some (zupd st i (fun v => v + 1)%Z) else None
+      | None => None
+      end
   | WInc i d old _ _ =>
       if Z.eqb (znth st i) old then Some (zupd st i (fun v => v + d)%Z) else None
   | WXfer i j a vi vj _ _ =>
@@ -69,15 +94,15 @@ Definition apply_write (st : list Z) (w : swrite) : option (list Z) :=
   end.
 
 (* replay: the list of states (state after 0, 1, ... writes), or the position that fails *)
-Fixpoint replay_writes (st : list Z) (ws : list swrite) (p : nat) (maxinv : Z) (acc : list (list Z))
+Fixpoint replay_writes (half : nat) (st : list Z) (ws : list swrite) (p : nat) (maxinv : Z) (acc : list (list Z))
   : (string * nat) + list (list Z) :=
   match ws with
   | [] => inr (rev (st :: acc))
   | w :: t =>
       if (w_ret w <? maxinv)%Z then inl ("real-time", p)
-      else match apply_write st w with
+      else match apply_write half st w with
            | None => inl ("stale-value", p)
-           | Some st' => replay_writes st' t (S p) (Z.max maxinv (w_inv w)) (st :: acc)
+           | Some st' => replay_writes half st' t (S p) (Z.max maxinv (w_inv w)) (st :: acc)
            end
   end.
 
@@ -126,7 +151,7 @@ Definition run_serial (x : sexp) : option string :=
       | Some i, Some w, Some r, Some f =>
           match zs_of_sexps i, opt_mapM write_of_sexp w, zs_of_sexps f with
           | Some init, Some ws, Some final =>
-              match replay_writes init ws 0 (-1)%Z [] with
+              match replay_writes (Nat.div2 (List.length init)) init ws 0 (-1)%Z [] with
               | inl (what, p) => Some ("reject " ++ what ++ " at write " ++ show_Z (Z.of_nat p))
               | inr states =>
                   if negb (zlist_eqb (last states []) final) then Some "reject final contents"
